@@ -9,6 +9,8 @@ from sim.worker_world import FRAMEWORK_LABELS
 from ._wcommon import (ASSUMPTIONS, COMPONENTS_REAL, COMPONENTS_STUB, Hist, Violation, default_nontrivial,  # noqa: F401
                        simplifications, simulate)
 
+from ._wcommon import abstract_states  # noqa: F401,E402
+
 ID = "C11"
 RUNS = {"quick": 8000, "thorough": 250000}
 BUDGET_S = {"quick": 60, "thorough": 900}
